@@ -1036,6 +1036,14 @@ hdf_xdr_NCvdata(NC *handle, NC_var *vp, unsigned long where, nc_type type, uint3
             } while (buf_size > 0);
         }      /* end if */
         else { /* don't write fill values, just seek to the correct location */
+            /* The new element has no length yet, so nothing past its start can
+               be sought to; give a fixed-size variable its full length first
+               (SDwritedata's set_length request only reaches a variable that
+               is not attached yet). */
+            if (!IS_RECVAR(vp) && elem_length <= 0 && Hsetlength(vp->aid, vp->len) == FAIL) {
+                ret_value = FAIL;
+                goto done;
+            }
             if (Hseek(vp->aid, where, DF_START) == FAIL) {
                 ret_value = FAIL;
                 goto done;
